@@ -53,11 +53,44 @@ def with_grad(net):
 
 
 def log_marg(net, V):
-    """log sum_h exp(b.v + c.h + h^T W v)  by explicit enumeration of the 2^nh hidden configurations."""
+    """log sum_h exp(b.v + c.h + h^T W v)  by explicit enumeration of the 2^nh hidden configurations.
+    Inside `with library_precision():` the same quantity is evaluated in its product form b.v + sum_j softplus(c_j + W_j.v) with
+    torch's own softplus (identity above its documented threshold 20): mathematically the same number, but it reproduces the
+    e^-20-per-hidden-unit deviation of the library's documented arithmetic, so comparisons can then be made to ~1e-12 (precision tier)."""
     W, b, c = net["W"], net["b"], net["c"]
+    if _MODE["softplus"]:
+        return V @ b + _LibSoftplus.apply(V @ W.t() + c[None, :]).sum(1)
     H = bits(W.shape[0])
     e = (V @ b)[:, None] + (H @ c)[None, :] + (V @ W.t()) @ H.t()
     return torch.logsumexp(e, dim=1)
+
+
+_MODE = {"softplus": False}
+
+
+class _LibSoftplus(torch.autograd.Function):
+    """value: torch's softplus (identity above its threshold 20), as the library evaluates energies; derivative: the exact sigmoid,
+    as the library's hand-written gradients use - so autograd through the product-form reference follows the library's documented
+    arithmetic in both the value and the gradient"""
+    @staticmethod
+    def forward(ctx, x):
+        ctx.save_for_backward(x)
+        return torch.nn.functional.softplus(x)
+
+    @staticmethod
+    def backward(ctx, g):
+        (x,) = ctx.saved_tensors
+        return g * torch.sigmoid(x)
+
+
+class library_precision:
+    """context manager: evaluate hidden-unit marginals in product form with torch's softplus (see log_marg)"""
+    def __enter__(self):
+        self.prev = _MODE["softplus"]
+        _MODE["softplus"] = True
+
+    def __exit__(self, *a):
+        _MODE["softplus"] = self.prev
 
 
 def joint_logw_binary(net, V, H):
@@ -78,6 +111,8 @@ def log_prob_visible(net, V):
     """Unnormalised log marginal weight of visible states under the amplitude network
     (hidden and, for purification networks, auxiliary units summed out by enumeration)."""
     lm = log_marg(net, V)
+    if "U" in net and _MODE["softplus"]:
+        return lm + _LibSoftplus.apply(V @ net["U"].t() + net["d"][None, :]).sum(1)
     if "U" in net:
         A = bits(net["U"].shape[0])
         la = (A @ net["d"])[None, :] + (V @ net["U"].t()) @ A.t()
